@@ -864,7 +864,7 @@ func (g *Gen) MutateWPlus(b *Bundle) WPlusInfo {
 			used[fmt.Sprint(pick)] = true
 			holders = [][]string{pick}
 		}
-		switch k := g.r.Intn(8); k {
+		switch k := g.r.Intn(11); k {
 		case 0, 1: // pointer to an arbitrary schema position (operations, nested inline schemas)
 			pos := schemaPositions(root)
 			if len(holders) == 0 || len(pos) == 0 {
@@ -952,6 +952,70 @@ func (g *Gen) MutateWPlus(b *Bundle) WPlusInfo {
 			root.Get(h).At["$ref"] = []string{"root", "definitions", "doesNotExist"}
 			info.LocalMissing = true
 			info.Kinds = append(info.Kinds, "local-missing-definition")
+		case 10: // pointer to a schema kept in a root-level vendor extension (a one-segment JSON pointer)
+			if len(holders) == 0 {
+				continue
+			}
+			sch := leaf("object")
+			ps := NewNode()
+			ps.Ch["inner"] = leaf("string")
+			sch.Ch["properties"] = ps
+			if g.r.Intn(2) == 0 {
+				sch = leaf("string")
+			}
+			root.Ch["x-shared-schema"] = sch
+			root.Get(holders[0]).At["$ref"] = []string{"root", "x-shared-schema"}
+			info.Kinds = append(info.Kinds, "pointer-to-extension")
+		case 8: // a chain of anonymous pointers that ends in a cycle of pure $refs, entered through a tail (must be reported, not looped on)
+			defs := root.Ch["definitions"]
+			if defs == nil || len(holders) == 0 {
+				continue
+			}
+			a, bb, c := g.newName(), g.newName(), g.newName()
+			mk := func(prop string, ref []string) *Node {
+				n := leaf("object")
+				ps := NewNode()
+				ps.Ch[prop] = refNode(ref...)
+				ps.Ch["plain"] = leaf("string")
+				n.Ch["properties"] = ps
+				return n
+			}
+			loopLen := 1 + g.r.Intn(2)
+			if loopLen == 1 {
+				defs.Ch[a] = mk("t", []string{"root", "definitions", a, "properties", "t"})
+			} else {
+				n := mk("t", []string{"root", "definitions", a, "properties", "t2"})
+				n.Ch["properties"].Ch["t2"] = refNode("root", "definitions", a, "properties", "t")
+				defs.Ch[a] = n
+			}
+			defs.Ch[bb] = mk("u", []string{"root", "definitions", a, "properties", "t"})
+			defs.Ch[c] = mk("p", []string{"root", "definitions", bb, "properties", "u"})
+			g.defs["root"] = append(g.defs["root"], a, bb, c)
+			root.Get(holders[0]).At["$ref"] = []string{"root", "definitions", c, "properties", "p"}
+			info.Unresolvable = true
+			info.Kinds = append(info.Kinds, "pointer-cycle-with-tail")
+		case 9: // a remote $ref that differs only by letter case from one that resolves (it does not resolve itself)
+			if len(holders) == 0 {
+				continue
+			}
+			var remote []string
+			root.Walk(nil, func(_ []string, n *Node) {
+				if r := n.Ref(); r != nil && r[0] != "root" && len(r) == 3 && remote == nil {
+					remote = r
+				}
+			})
+			if remote == nil {
+				continue
+			}
+			conc := g.Names.Conc(remote[2])
+			variant := swapCase(conc)
+			if variant == conc || g.usedConcrete[variant] {
+				continue
+			}
+			ph := g.newNameConcrete(variant)
+			root.Get(holders[0]).At["$ref"] = []string{remote[0], "definitions", ph}
+			info.Unresolvable = true
+			info.Kinds = append(info.Kinds, "dangling-case-variant-of-imported")
 		case 7: // schemas recursive only through items / additionalProperties
 			nm := g.newName()
 			g.defs["root"] = append(g.defs["root"], nm)
